@@ -134,6 +134,18 @@ EDITS["r3_table_not_constant"] = ("table-loop shape, one element is not a consta
 EDITS["r4_loop_var_after_loop"] = ("table-loop shape, a loop variable is read after the loop", rep(T, "                raise configparser.Error(error_message)\n\n", "                raise configparser.Error(error_message)\n        print(option, file=sys.stderr)\n\n"))
 EDITS["r5_table_iterated_twice"] = ("table-loop shape, the table is iterated by two loops", rep(T, "        for section, option, error_message in required_options:", "        for s2, o2, e2 in required_options:\n            print(e2, file=sys.stderr)\n        for section, option, error_message in required_options:"))
 
+# ---- second round of refactorings (H7 harmless_2 / harmless_3, pcfg_guesser.py part; the refactored sources are kept in shapes/)
+S2 = open(os.path.join(HERE, "shapes", "H7_2_pcfg_guesser.py"), encoding="utf-8").read()
+S3 = open(os.path.join(HERE, "shapes", "H7_3_pcfg_guesser.py"), encoding="utf-8").read()
+EDITS["h7_script_dir_fstring_flat_uuid_flag_loop"] = ("H7/harmless_2: script directory in a local, f-string for the save file name, flattened uuid test, the two flags written by a loop over ('skip_brute', 'skip_case')", S2)
+EDITS["h8_getattr_table_fstrings_limit_local"] = ("H7/harmless_3: f-strings in help / description, (field, argument) table with a getattr loop, `limit` local and `0 >= limit`", S3)
+EDITS["m14_fstring_wrong_field"] = ("H7/harmless_2 shape, the f-string of the save file name formats rule_name instead of session_name", rep(S2, "f\"{program_info['session_name']}.sav\"", "f\"{program_info['rule_name']}.sav\""))
+EDITS["m15_flag_loop_same_flag_twice"] = ("H7/harmless_2 shape, the flag loop runs over ('skip_brute', 'skip_brute'): skip_case is never saved", rep(S2, "for flag in ('skip_brute', 'skip_case'):", "for flag in ('skip_brute', 'skip_brute'):"))
+EDITS["m16_flat_uuid_test_inverted"] = ("H7/harmless_2 shape, `if not has_option(uuid)` loses its `not`", rep(S2, "if not save_config.has_option('rule_info','uuid'):", "if save_config.has_option('rule_info','uuid'):"))
+EDITS["m17_getattr_table_crossed"] = ("H7/harmless_3 shape, the table stores skip_brute into skip_case and vice versa", rep(S3, "('skip_brute', 'skip_brute'), ('skip_case', 'skip_case'),", "('skip_brute', 'skip_case'), ('skip_case', 'skip_brute'),"))
+EDITS["m18_flipped_limit_test"] = ("H7/harmless_3 shape, `0 >= limit` -> `0 <= limit`", rep(S3, "if limit and 0 >= limit:", "if limit and 0 <= limit:"))
+EDITS["m19_rules_folder_dropped"] = ("H7/harmless_2 shape, base_directory = os.path.join(script_directory, rule_name) without 'Rules'", rep(S2, "                        script_directory,\n                        'Rules',\n", "                        script_directory,\n"))
+
 for name, (what, text) in EDITS.items():
     d = "".join(difflib.unified_diff(SRC.splitlines(True), text.splitlines(True), "a/pcfg_guesser.py", "b/pcfg_guesser.py"))
     assert d, name
